@@ -27,9 +27,9 @@ RULE = ('Generated experiment frames in both cost scenarios (fixed: pre-period a
 ASSUMPTIONS = ['tails=1 with level < 0.5 ordering failures are classified under the known-finding key one-sided-level-below-half',
                'variable-cost cases with |incremental cost / its posterior scale| < 8 are skipped (ratio of t variables too heavy-tailed)']
 EXHAUSTIVE = {'quick': False, 'thorough': False}
-MINIMA = {'quick': {'fixed_checked': 250, 'variable_checked': 200, 'equivariance_pairs': 400, 'determinism_pairs': 200,
+MINIMA = {'quick': {'refits': 80, 'fixed_checked': 250, 'variable_checked': 200, 'equivariance_pairs': 400, 'determinism_pairs': 200,
                     'distinct_nontrivial': 400},
-          'thorough': {'fixed_checked': 4000, 'variable_checked': 3000, 'equivariance_pairs': 6000, 'determinism_pairs': 3000,
+          'thorough': {'refits': 1200, 'fixed_checked': 4000, 'variable_checked': 3000, 'equivariance_pairs': 6000, 'determinism_pairs': 3000,
                        'distinct_nontrivial': 6000}}
 N = {'quick': 640, 'thorough': 9000}
 NSIMS = {'quick': 2000, 'thorough': 10000}
@@ -64,7 +64,7 @@ def run_case(spec):
   nsims = NSIMS[spec['tier']]
   counters = collections.Counter()
   violations = []
-  desc = {k: exp[k] for k in ('n_pre', 'n_test', 'n_cool', 'n_ctl', 'n_trt', 'shape', 'extras', 'lift')}
+  desc = {k: exp[k] for k in ('n_pre', 'n_test', 'n_cool', 'n_ctl', 'n_trt', 'shape', 'extras', 'lift', 'int_dtype')}
   desc.update(scenario=scenario, use_cooldown=use_cool, level=level, tails=tails)
 
   def add(clause, mech, detail):
@@ -82,6 +82,10 @@ def run_case(spec):
   vol = float(np.abs(yr_an).sum() + np.abs(yr_pre).mean() * len(yr_an))
   thr_base = r.choice([0.0, 0.0, 0.5, 2.0, -1.0])
   model = mod.TBRiROAS(use_cooldown=use_cool)
+  if r.random() < 0.3:
+    decoy = gen.gen_experiment(r, g, cost_mode=r.choice(['fixed', 'variable']))
+    util.call(lambda: (model.fit(decoy['frame']), model.summary(nsims=200, random_state=1)))
+    counters['refits'] += 1
   fit = util.call(model.fit, frame)
   if not fit.ok:
     add('fit', 'iroas-fit-raises:' + fit.exc_type, fit.describe())
